@@ -79,6 +79,7 @@ pub fn execute(scn: &Scn, opts: &ExecOpts) -> Outcome {
         faults: vec![],
         crash: None,
         liveness: false,
+        enc_fail: vec![],
         sched_seed: 0,
         policy: kernel::Policy::RoundRobin,
     };
